@@ -50,6 +50,42 @@ def _cls(items):
 
 
 _STRICT_END = [False]
+_IGNORECASE = [False]
+_ALLCHARS = []
+
+
+def _matching(char_pattern):
+    """exact set of code points a one-character pattern matches under re.IGNORECASE, by asking re itself
+    (one findall over the string of all code points) -> z3 regex as a union of ranges"""
+    if not _ALLCHARS:
+        _ALLCHARS.append(''.join(map(chr, range(0x110000))))
+    cps = sorted(set(map(ord, re.compile(char_pattern, re.IGNORECASE | re.DOTALL).findall(_ALLCHARS[0]))))
+    if not cps:
+        raise Unsupported('empty class')
+    rs = []
+    lo = prev = cps[0]
+    for c in cps[1:] + [None]:
+        if c is not None and c == prev + 1:
+            prev = c
+            continue
+        rs.append(_lit(lo) if lo == prev else z3.Range(chr(lo), chr(prev)))
+        if c is not None:
+            lo = prev = c
+    return rs[0] if len(rs) == 1 else z3.Union(*rs)
+
+
+def _cls_source(items):
+    out = '['
+    for op, av in items:
+        if op is sc.NEGATE:
+            out += '^'
+        elif op is sc.LITERAL:
+            out += re.escape(chr(av))
+        elif op is sc.RANGE:
+            out += re.escape(chr(av[0])) + '-' + re.escape(chr(av[1]))
+        else:
+            raise Unsupported('class item %s' % (op,))
+    return out + ']'
 
 
 def _seq(p, is_last_seq):
@@ -66,6 +102,12 @@ def _seq(p, is_last_seq):
 
 
 def _one(op, av, last):
+    if _IGNORECASE[0] and op is sc.LITERAL:
+        return _matching(re.escape(chr(av)))
+    if _IGNORECASE[0] and op is sc.NOT_LITERAL:
+        return _matching('[^%s]' % re.escape(chr(av)))
+    if _IGNORECASE[0] and op is sc.IN:
+        return _matching(_cls_source(av))
     if op is sc.LITERAL:
         return _lit(av)
     if op is sc.NOT_LITERAL:
@@ -113,8 +155,9 @@ def to_z3(pattern, flags=0, full=False, strict_end=False):
     if isinstance(pattern, re.Pattern):
         flags = pattern.flags
         pattern = pattern.pattern
-    if flags & (re.IGNORECASE | re.MULTILINE | re.DOTALL):
+    if flags & (re.MULTILINE | re.DOTALL | re.LOCALE | re.ASCII):
         raise Unsupported('flags %r' % flags)
+    _IGNORECASE[0] = bool(flags & re.IGNORECASE)
     tree = sp.parse(pattern, flags)
     items = list(tree)
     if not full:
